@@ -9,6 +9,10 @@ CLAIMED = {
          "Every built-in test of every schema type is executed on the real implementation for every subject over boundary alphabets (strings <=3/<=4 symbols over 21 boundary symbols, grammar strings <=5/<=7, UUID single/double edits, numeric boundary sets of all five types incl. NaN/Inf/-0, instants +-1ns in two zones, slices of length 0..3) in Parse and Validate and for every Not() form; issue present <=> not predicate. Bounded-exhaustive, not sampled: a comparison or character-class boundary that is off by one is inside the enumerated space.",
          "Reference predicates written from the property statement; URL reference uses net/url. Values outside the alphabets are not examined.",
          "DESIGN.md section 4 C20"),
+ "C18": ("exhaustive enumeration of (numeric schema, source representation, boundary magnitude) on the real code vs. exact math/big arithmetic",
+         "All five numeric schemas are driven with every boundary magnitude (type bounds +-1, 2^24/2^53 +-1, MaxFloat32 and the float32 rounding boundary, 1e19, 1e39, 1e300, fractions, NaN/Inf, odd strings) in every representation that can express it (int, int32, int64, float32, float64, decimal string, exponent string, JSON number through zjson, form string through zhttp), with and without an upper-bound test. A silent result must equal the exact input (truncated toward zero for integers, correctly rounded for floats) as computed with math/big. The full product is enumerated, so any wrap/saturation at a type boundary is inside the explored space.",
+         "A coerce issue is always accepted (one-directional property); JSON numbers are compared after IEEE-double decoding; in-range float rounding is accepted.",
+         "DESIGN.md section 4 C18"),
 }
 NOT_YET = "check not built yet in this round (work in progress; see DESIGN.md section 4)"
 def main():
